@@ -146,6 +146,11 @@ pub trait SMBusMCTPRequestResponse {
 
         let packet = MCTPSMBusPacket::new(&mut smbus_header, &base_header, &body);
 
+        // The SMBus byte count is a single byte
+        if packet.len() - 4 > u8::MAX as usize {
+            return Err(());
+        }
+
         Ok(packet.to_raw_bytes(buf))
     }
 
@@ -166,6 +171,11 @@ pub trait SMBusMCTPRequestResponse {
         let body = MCTPMessageBody::new(&header, *message_header, message_data, None);
 
         let packet = MCTPSMBusPacket::new(&mut smbus_header, &base_header, &body);
+
+        // The SMBus byte count is a single byte
+        if packet.len() - 4 > u8::MAX as usize {
+            return Err(());
+        }
 
         Ok(packet.to_raw_bytes(buf))
     }
@@ -189,6 +199,11 @@ pub trait SMBusMCTPRequestResponse {
 
         let packet = MCTPSMBusPacket::new(&mut smbus_header, &base_header, &body);
 
+        // The SMBus byte count is a single byte
+        if packet.len() - 4 > u8::MAX as usize {
+            return Err(());
+        }
+
         Ok(packet.to_raw_bytes(buf))
     }
 
@@ -209,6 +224,11 @@ pub trait SMBusMCTPRequestResponse {
         let body = MCTPMessageBody::new(&header, *message_header, message_data, None);
 
         let packet = MCTPSMBusPacket::new(&mut smbus_header, &base_header, &body);
+
+        // The SMBus byte count is a single byte
+        if packet.len() - 4 > u8::MAX as usize {
+            return Err(());
+        }
 
         Ok(packet.to_raw_bytes(buf))
     }
